@@ -1,11 +1,25 @@
 TUS = ['src/base/QXmppIq.cpp', 'src/base/QXmppStanza.cpp', 'src/base/QXmppUtils.cpp']
-def I(name, **kw):
-    d = dict(name=name, entry='h_' + name, unwind=5, timeout_s=120, mem_gb=6, bound='table <= 2 requests, ids <= 2 / JIDs <= 3 arbitrary UTF-16 units'); d.update(kw); return d
+B = 'table <= 2 pending requests; ids <= 2, JIDs <= 3 arbitrary UTF-16 units; '
+def I(name, entry, cfg, bound, **kw):
+    d = dict(name=name, entry='h_' + entry, unwind=5, timeout_s=300, mem_gb=6, cdefs={'VP_CFG': cfg}, bound=B + bound); d.update(kw); return d
+# VP_CFG bits: 1 = continuation attached before the event (else after), 2/4/8 = type/id/from attribute present, 16/32 = outcome of the stream send
+STANZA = [I('stanza_%s%s' % (n, 'e' if e else 'l'), 'stanza', c | e, 'one arbitrary top-level element (tag <= 3, type <= 6, id <= 2, from <= 3 units), attributes present: ' + n)
+          for (n, c) in (('tif', 14), ('ti', 6), ('tf', 10), ('if', 12)) for e in (1, 0) if not (e == 0 and n in ('tf', 'if'))]
+SEND = [I('send_packet_%s' % n, 'send_packet', 1 | m << 4, 'arbitrary id <= 2 / addressee <= 3 units incl. empty and duplicate; stream send ' + n) for (n, m) in (('ok', 0), ('fail', 1), ('pending', 2))] + \
+       [I('send_iq_%s' % n, 'send_iq', 1 | m << 4, 'QXmppIq with arbitrary id / to (incl. empty), arbitrary own bare JID, arbitrary generated ids; stream send ' + n) for (n, m) in (('ok', 0), ('fail', 1))]
 SPEC = dict(
     property='C07',
     groups=[
-        dict(name='iq', harness='h.cpp', tus=TUS, models=['qt_core.c', 'qt_list.c', 'qt_dom.c', 'models.c'], shadow_task=True, cxxdefs={'VP_PROBES': 1},
-             instances=[I('stanza_%d' % c, entry='h_stanza', cdefs={'VP_CFG': c}) for c in (15, 6)] + [I('p1', cdefs={'VP_CFG': 15}, timeout_s=60), I('p2', cdefs={'VP_CFG': 15}, timeout_s=60)]),
+        dict(name='iq', harness='h.cpp', tus=TUS, models=['qt_core.c', 'qt_list.c', 'qt_dom.c', 'models.c'], shadow_task=True,
+             loop_bounds={r'^_ZNSt6ranges14__copy_or_move': 110},
+             instances=STANZA + SEND + [
+                 I('session_e', 'session', 1, 'event in {sessionOpened(resumed?), sessionClosed(canResume?), cancelAll, ~QXmppOutgoingClient}'),
+                 I('session_l', 'session', 0, 'event in {sessionOpened(resumed?), sessionClosed(canResume?), cancelAll, ~QXmppOutgoingClient}'),
+                 I('finish', 'finish', 1, 'finish(id, result) with arbitrary id'),
+                 I('chain_conv', 'chain', 1, 'chainIq with converter (QXmppClient::sendGenericIq), continuation before reply'),
+                 I('chain_conv_l', 'chain', 0, 'chainIq with converter, continuation after reply'),
+                 I('chain_typed', 'chain', 3, 'chainIq<variant<QXmppIq,QXmppError>>, continuation before reply'),
+             ]),
     ],
     bounds=[], assumptions=[], outside=[],
 )
